@@ -12,14 +12,16 @@ META = {
     'rule': 'exhaustive: every (route, method) of the routing table of the '
             'working tree (plus undefined methods) x 9 caller classes under '
             'default policy at 1.39, the same operations in the request '
-            'formats of 21 older microversions x 5 caller classes, then for '
+            'formats of 21 older microversions x 5 caller classes and aimed '
+            'at other entities (unknown ones, a consumer holding nothing, '
+            'a bare provider) for the callers to be denied, then for '
             'every documented rule R: R:="@" with a '
             'role-less caller and R:="!" with admin, each against all '
             'operations; every probe runs on a restored snapshot, the dump '
             'and the SQL statement stream around it are compared; distinct = '
             '(operation, caller class, policy variant)',
     'floors': {'denied_probes': 100, 'allowed_probes': 50,
-               'older_version_probes': 500,
+               'older_version_probes': 500, 'other_target_probes': 50,
                'keystone_pipeline_probes': 100,
                'override_probes': 500, 'unauthenticated_probes': 30},
     'assumptions': ['authorisation decided on the noauth2 + '
@@ -235,6 +237,28 @@ def run_shard(spec, res):
                                     tail, resp.status),
                                 '%s: answered %d %s' % (
                                     what, resp.status, resp.brief()), wit)
+            # the same operations aimed at other entities (unknown ones, a
+            # consumer holding nothing, a bare provider): a caller who is
+            # not authorised is refused whatever the request is about
+            for op in oplist:
+                for tname, req in world.alt_targets(op, ops[op]):
+                    for caller in VERSION_CALLERS:
+                        if expected_default(op, caller) != 'deny':
+                            continue
+                        r, resp, after, stmts = probe(req, caller)
+                        res.count('requests')
+                        res.count('denied_probes')
+                        res.count('other_target_probes')
+                        res.seen('%s %s' % op, caller[0], tname)
+                        wit = {'request': r.brief(),
+                               'response': resp.brief(),
+                               'caller': caller[0]}
+                        _judge_denied(
+                            res, '%s %s|%s|%s' % (op[0], op[1], caller[0],
+                                                  tname),
+                            '%s %s (%s) as %s' % (op[0], op[1], tname,
+                                                  caller[0]),
+                            resp, d0, after, stmts, wit)
             # the same operations in the request formats of older
             # microversions (handlers are implemented per version band:
             # every band must authorise on its own)
@@ -349,6 +373,22 @@ def run_shard(spec, res):
                                 'policy {%s: %r}: %s %s as %s answered %d'
                                 % (rule, check, op[0], op[1], c[0],
                                    resp.status), wit)
+                        if not should_allow and variant == 'closed':
+                            for tname, req2 in world.alt_targets(op,
+                                                                 ops[op]):
+                                r2, resp2, after2, stmts2 = probe(req2, c)
+                                res.count('requests')
+                                res.count('override_probes')
+                                res.seen('%s %s' % op, c[0],
+                                         '%s=%s' % (rule, check), tname)
+                                _judge_denied(
+                                    res, tail + '|' + c[0] + '|' + tname,
+                                    '%s %s (%s) as %s under {%s: %r}' % (
+                                        op[0], op[1], tname, c[0], rule,
+                                        check), resp2, d0, after2, stmts2,
+                                    {'request': r2.brief(),
+                                     'response': resp2.brief(),
+                                     'policy': {rule: check}})
                         if not should_allow:
                             if ok2:
                                 res.violation(
